@@ -511,7 +511,18 @@ func genWorldPlan(prop string, master uint64, run int) Plan {
 				}
 			case 5:
 				if s := b.pickS(); s != 0 {
-					b.spRead(s)
+					switch r.Intn(4) {
+					case 0:
+						b.add(Op{K: "sp.escape", P: b.party[b.spOf[s]], H: s, A: QS(b.g.Value())})
+					case 1:
+						id := b.nextS
+						b.nextS++
+						b.sps = append(b.sps, id)
+						b.spOf[id] = b.spOf[s]
+						b.add(Op{K: "sp.clone", P: b.party[b.spOf[s]], H: s, D: id})
+					default:
+						b.spRead(s)
+					}
 				}
 			case 6:
 				b.observer(u)
